@@ -327,11 +327,23 @@ def gen_e2e(rng, k):
             return rng.choice(E2E_WORDS)
         return rng.choice(E2E_REGEX)
 
+    def builder_op():
+        # skip_exact / skip_regex(&str) / skip_regex(pre-built Regex with a RegexBuilder flag)
+        r = rng.random()
+        if r < 0.35:
+            return "-e:" + text(True)
+        if r < 0.7:
+            return "-r:" + text(False)
+        if r < 0.9:
+            # case_insensitive with a metacharacter-free pattern whose case differs from the path's
+            w = rng.choice(E2E_WORDS[:19] + ["string", "hx_select_e2e::sel::top", "alpha::beta", "sel::grp", "Pair", "ty"])
+            return "-i:" + rng.choice([w.upper(), w.lower(), w.swapcase(), w.capitalize()])
+        return rng.choice(["-m:", "-s:", "-U:"]) + rng.choice(["^hx.*top$", "alpha.beta", "a.b", "::a+?$", "top", "[0-9]+?$"])
+
     ops, origins = [], []
     nb = rng.choice([0, 0, 0, 1, 2])
     for _ in range(nb):   # builder skips before the command line is parsed
-        ex = rng.random() < 0.5
-        ops.append("-" + ("e:" if ex else "r:") + text(ex))
+        ops.append(builder_op())
         origins.append("p")
     for _ in range(npos):
         ops.append("+" + ("e:" if exact else "r:") + text(exact))
@@ -340,8 +352,7 @@ def gen_e2e(rng, k):
         ops.append("-" + ("e:" if exact else "r:") + text(exact))
         origins.append("c")
     if rng.random() < 0.2:   # a builder skip after parsing
-        ex = rng.random() < 0.5
-        ops.append("-" + ("e:" if ex else "r:") + text(ex))
+        ops.append(builder_op())
         origins.append("q")
     return f"e{k} #F " + " ".join(E.enc(o) for o in ops) + " #O " + ("".join(origins) or "-")
 
@@ -357,7 +368,8 @@ def e2e_cli(case):
             exact = exact or ex
             args += [pat] if inc else ["--skip", pat]
         else:
-            builder.append(("pre:" if o == "p" else "post:") + ("skip_exact=" if ex else "skip_regex=") + pat)
+            call = {"e": "skip_exact", "r": "skip_regex"}.get(op[1], "skip_regex_" + op[1])
+            builder.append(("pre:" if o == "p" else "post:") + call + "=" + pat)
     if exact:
         args.append("--exact")
     # `--` so that no pattern is taken for a flag
@@ -393,8 +405,8 @@ def e2e_impl_runner(ctx):
         oracle_in = []
         for case in st.cases:
             ops = [t for t in case.split(" #F", 1)[1].split(" #O")[0].split(" ") if t]
-            pats = [o[3:] for o in ops if o[1] == "r"]
-            oracle_in.append("o #P " + " ".join("?" + p for p in pats) + " #Q " + " ".join("?" + p for p in ctx.paths))
+            pats = [o[1] + ":" + o[3:] for o in ops if o[1] != "e"]
+            oracle_in.append("o #P " + " ".join(pats) + " #Q " + " ".join("?" + p for p in ctx.paths))
         rc, tables, err, _ = run_lines(hbin, "oracle", oracle_in, 120)
         for case, tline in zip(st.cases, tables + ["crash"] * (len(st.cases) - len(tables))):
             ops = [t for t in case.split(" #F", 1)[1].split(" #O")[0].split(" ") if t]
@@ -411,7 +423,7 @@ def e2e_impl_runner(ctx):
             listed = sorted(set(E.enc(c) for c in E.terse_cases(out2)))
             leaves = sorted(E.enc(p) for p, leaf, _ in E.tree_paths(E.parse_tree(out3)) if leaf)
             rows = iter(t for t in tline[2:].split(" ") if t)
-            trows = [next(rows) if o[1] == "r" else "x" for o in ops]
+            trows = [next(rows) if o[1] != "e" else "x" for o in ops]
             q = lambda l: " ".join("?" + x for x in l)
             lines.append(f"X {q(ran)} #L {q(listed)} #S {q(leaves)} #U {' '.join(ctx.u_tokens)} #Q {q(ctx.paths)} #T {' '.join(trows)}")
         return lines
@@ -487,6 +499,8 @@ def streams(tier, rng):
         bump(e2e_hist, "cli-none" if not cli else "cli-exact" if cli[0][1] == "e" else "cli-regex")
         if "p" in o or "q" in o:
             bump(e2e_hist, "builder-skip")
+        if any(t[1] in "imsU" for t in c.split(" #F", 1)[1].split(" #O")[0].split()):
+            bump(e2e_hist, "builder-skip-prebuilt-regex-with-flag")
     ctx = E2EContext()
 
     def nt_e2e(c, m):
